@@ -33,7 +33,8 @@
              `guest_copy_bytes`); infix: the same outside the guest copies;
     rotate / linear split   C04 / C03 lifted to the loops (`rotate_features_partial`,
              `split_features_partial`: the windows partition the record and every residue of a
-             feature is denoted by the feature's piece in exactly one window).
+             feature is denoted by the feature's piece in exactly one window);
+    circular split / extract   in `Gts/Props/C15Extract.lean` (same namespace).
   All under the K2 guards of the single steps folded along the loop (`Cli.delAbs`, `Cli.insAbs`);
   the unguarded statements are refuted (`…_full_refuted`).
 -/
